@@ -6,8 +6,15 @@
   functions over the exact number model `Num`, lengths (`Int`) and `Val`;
 * tables: the class raised by `Validator.raise_exception`, the class hierarchy of exceptions.py, for every validator class
   the classes raised on its rejection paths and the classes named by its `except` clauses, `REGEX_EMAIL`, the `re` entry
-  points used by Email / MatchPattern, the isinstance tuple of DateTimeUnixTimestamp, and the structure of `convert_value`
-  (isinstance shortcut, normalisation chain, bool literal lists, special-cased targets, caught / raised classes).
+  points used by Email / MatchPattern, the isinstance tuple of DateTimeUnixTimestamp, the literal date that
+  DateTimeUnixTimestamp adds the seconds to, and the structure of `convert_value`
+  (isinstance shortcut, normalisation chain, bool literal lists, special-cased targets, caught / raised classes);
+* `importTimeComputations`: everything the modules of the validators package (and convert_value.py) compute when they are
+  IMPORTED - module-level and class-level statements other than imports / classes / functions / docstrings / assignments of a
+  literal constant / a typing alias, parameter defaults other than literals, names and lambdas, decorators other than
+  overrides(...) / abstractmethod / property / staticmethod / classmethod.  A value computed at import time is frozen with the
+  environment of that moment (time zone, locale, clock); the theorems hold for functions of the arguments only, so the list
+  must be empty (`no_import_time_computation`).
 """
 import ast
 from extract import Skip, src, find_func, lean_str, lean_bool, HEADER
@@ -262,6 +269,190 @@ def re_entry(fn, what):
     return hits[0]
 
 
+# ------------------------------------------------------------------ import-time computations
+
+def is_literal(e):
+    if isinstance(e, ast.Constant):
+        return True
+    if isinstance(e, ast.UnaryOp) and isinstance(e.op, (ast.USub, ast.UAdd)) and isinstance(e.operand, ast.Constant):
+        return True
+    if isinstance(e, (ast.Tuple, ast.List, ast.Set)):
+        return all(is_literal(x) for x in e.elts)
+    if isinstance(e, ast.Dict):
+        return all(k is not None and is_literal(k) and is_literal(v) for k, v in zip(e.keys, e.values))
+    return False
+
+
+BUILTIN_TYPES = {'bool', 'int', 'float', 'str', 'bytes', 'dict', 'list', 'tuple', 'set', 'frozenset', 'object', 'type'}
+
+
+def is_typing_alias(e, typing_names):
+    """`Union[bool, int, ...]`, `Optional[str]`, `Callable[[str], str]`: subscripts of names imported from typing over type names"""
+    def ty(x):
+        if isinstance(x, ast.Name):
+            return x.id in BUILTIN_TYPES or x.id in typing_names
+        if isinstance(x, ast.Constant):
+            return x.value is None or x.value is Ellipsis
+        if isinstance(x, (ast.Tuple, ast.List)):
+            return all(ty(y) for y in x.elts)
+        if isinstance(x, ast.Subscript):
+            return isinstance(x.value, ast.Name) and x.value.id in typing_names and ty(x.slice)
+        return False
+    return isinstance(e, ast.Subscript) and ty(e)
+
+
+PURE_DATETIME = {'datetime', 'timedelta', 'date'}
+
+
+def is_pure_constant(e, tree):
+    """a literal, or an environment-independent constructor call on literals: `datetime(1970, 1, 1)` / `timedelta(...)` / `date(...)`
+    (names imported from datetime, no tzinfo) and `re.compile(<literal>)` - NOT datetime.fromtimestamp / now / today, time.*, os.*"""
+    if is_literal(e):
+        return True
+    if not isinstance(e, ast.Call) or any(isinstance(a, ast.Starred) for a in e.args) or any(k.arg in (None, 'tzinfo', 'tz') for k in e.keywords):
+        return False
+    args = list(e.args) + [k.value for k in e.keywords]
+    from_dt = {a.asname or a.name: a.name for n in tree.body if isinstance(n, ast.ImportFrom) and n.module == 'datetime' and not n.level for a in n.names}
+    imports = {a.asname or a.name: a.name for n in tree.body if isinstance(n, ast.Import) for a in n.names}
+    f = e.func
+    if isinstance(f, ast.Name) and from_dt.get(f.id) in PURE_DATETIME:
+        return all(is_pure_constant(a, tree) for a in args) and len(e.args) <= 7
+    if isinstance(f, ast.Attribute) and isinstance(f.value, ast.Name) and imports.get(f.value.id) == 're' and f.attr == 'compile':
+        return all(is_literal(a) for a in args)
+    return False
+
+
+def module_constant(tree, name):
+    """the value expression of the module-level name `name` when the whole module binds that name exactly once, by a plain
+    top-level assignment (no other assignment, parameter, import, def, class, loop target, global declaration of it anywhere)"""
+    n_bind = 0
+    for n in ast.walk(tree):
+        if isinstance(n, ast.Name) and isinstance(n.ctx, (ast.Store, ast.Del)) and n.id == name:
+            n_bind += 1
+        elif isinstance(n, ast.arg) and n.arg == name:
+            n_bind += 1
+        elif isinstance(n, (ast.Import, ast.ImportFrom)) and any((a.asname or a.name.split('.')[0]) == name for a in n.names):
+            n_bind += 1
+        elif isinstance(n, (ast.FunctionDef, ast.AsyncFunctionDef, ast.ClassDef)) and n.name == name:
+            n_bind += 1
+        elif isinstance(n, (ast.Global, ast.Nonlocal)) and name in n.names:
+            n_bind += 1
+        elif isinstance(n, ast.ExceptHandler) and n.name == name:
+            n_bind += 1
+    top = [n for n in tree.body if isinstance(n, ast.Assign) and len(n.targets) == 1 and isinstance(n.targets[0], ast.Name) and n.targets[0].id == name]
+    return top[0].value if n_bind == 1 and len(top) == 1 else None
+
+
+OK_DECORATORS = {'abstractmethod', 'property', 'staticmethod', 'classmethod'}
+
+
+def import_time(tree):
+    """descriptions of everything the module computes when it is imported (see the module docstring)"""
+    typing_names = {a.asname or a.name for n in tree.body if isinstance(n, ast.ImportFrom) and n.module == 'typing' for a in n.names}
+    out = []
+
+    def short(n):
+        return ' '.join(ast.unparse(n).split())[:70]
+
+    def func(fn, where):
+        for d in fn.decorator_list:
+            ok = (isinstance(d, ast.Name) and d.id in OK_DECORATORS) or \
+                 (isinstance(d, ast.Attribute) and d.attr in OK_DECORATORS | {'setter'}) or \
+                 (isinstance(d, ast.Call) and isinstance(d.func, ast.Name) and d.func.id == 'overrides' and len(d.args) == 1
+                  and not d.keywords and isinstance(d.args[0], ast.Name))
+            if not ok:
+                out.append(f'{where}{fn.name}: decorator @{short(d)}')
+        a = fn.args
+        for prm, dflt in list(zip((a.posonlyargs + a.args)[::-1], a.defaults[::-1])) + list(zip(a.kwonlyargs, a.kw_defaults)):
+            if dflt is not None and not (is_pure_constant(dflt, tree) or isinstance(dflt, (ast.Name, ast.Lambda))):
+                out.append(f'{where}{fn.name}: default {prm.arg}={short(dflt)}')
+
+    def block(body, where):
+        for n in body:
+            if isinstance(n, (ast.Import, ast.ImportFrom, ast.Pass)):
+                continue
+            if isinstance(n, ast.Expr) and isinstance(n.value, ast.Constant):
+                continue
+            if isinstance(n, (ast.FunctionDef, ast.AsyncFunctionDef)):
+                func(n, where)
+                continue
+            if isinstance(n, ast.ClassDef):
+                if n.decorator_list or n.keywords or not all(isinstance(b, (ast.Name, ast.Attribute)) for b in n.bases):
+                    out.append(f'{where}class {n.name}: decorators / computed bases')
+                block(n.body, f'{where}{n.name}.')
+                continue
+            if isinstance(n, ast.Assign) and all(isinstance(t, ast.Name) for t in n.targets) \
+                    and (is_pure_constant(n.value, tree) or is_typing_alias(n.value, typing_names)):
+                continue
+            if isinstance(n, ast.AnnAssign) and isinstance(n.target, ast.Name) and (n.value is None or is_pure_constant(n.value, tree)):
+                continue
+            out.append(f'{where}{short(n)}')
+    block(tree.body, '')
+    return out
+
+
+def gen_import_time(repo):
+    import os
+    rows = []
+    files = [VDIR + f for f in sorted(os.listdir(os.path.join(repo, VDIR))) if f.endswith('.py')]
+    files.append('pedantic/decorators/fn_deco_validate/convert_value.py')
+    for rel in files:
+        for d in import_time(ast.parse(src(repo, rel))):
+            rows.append((rel.split('/')[-1], d))
+    return ('/-- everything the modules of the validators package and convert_value.py COMPUTE when they are imported: (file, statement) for\n'
+            '    every module- / class-level statement other than an import, a class, a function, a docstring, the assignment of a literal\n'
+            '    constant (or datetime / timedelta / date / re.compile of literals) or of a typing alias; every parameter default other than\n'
+            '    such a constant, a name or a lambda; every decorator other than\n'
+            '    overrides(...) / abstractmethod / property / staticmethod / classmethod.  Such a value is frozen with the environment of\n'
+            '    the moment of the import (time zone, locale, clock) -/\n'
+            'def importTimeComputations : List (String × String) := ['
+            + ', '.join(f'({lean_str(a)}, {lean_str(b)})' for a, b in rows) + ']\n\n')
+
+
+def unix_epoch(ux, tree):
+    """`return datetime(<y>, <m>, <d>) + timedelta(seconds=<seconds>)` in the second try block: [y, m, d]; [] for any other summand
+    (a name bound once, at module level, is looked through: `EPOCH = datetime(1970, 1, 1)`, `EPOCH_YEAR = 1970`)"""
+    def resolve(e):
+        seen = 0
+        while isinstance(e, ast.Name) and seen < 5:
+            v = module_constant(tree, e.id)
+            if v is None:
+                return e
+            e, seen = v, seen + 1
+        return e
+    tries = [n for n in ast.walk(ux) if isinstance(n, ast.Try)]
+    tries.sort(key=lambda n: n.lineno)
+    if len(tries) != 2:
+        raise Skip('DateTimeUnixTimestamp.validate: expected two try blocks')
+    first = strip_doc(tries[0].body)
+    if not (len(first) == 1 and isinstance(first[0], ast.Assign) and isinstance(first[0].targets[0], ast.Name)
+            and ast.unparse(first[0].value) in ('float(value)',)):
+        raise Skip('DateTimeUnixTimestamp.validate: the first try block is not `<seconds> = float(value)`')
+    sec = first[0].targets[0].id
+    body = strip_doc(tries[1].body)
+    if not (len(body) == 1 and isinstance(body[0], ast.Return) and isinstance(body[0].value, ast.BinOp) and isinstance(body[0].value.op, ast.Add)):
+        raise Skip('DateTimeUnixTimestamp.validate: the second try block is not `return <a> + <b>`')
+    a, b = body[0].value.left, body[0].value.right
+    td = f'timedelta(seconds={sec})'
+    if ast.unparse(b) != td:
+        a, b = b, a
+    if ast.unparse(b) != td:
+        raise Skip(f'DateTimeUnixTimestamp.validate: no summand {td}')
+    a = resolve(a)
+    from_dt = {x.asname or x.name: x.name for n in tree.body if isinstance(n, ast.ImportFrom) and n.module == 'datetime' and not n.level for x in n.names}
+    if not (isinstance(a, ast.Call) and isinstance(a.func, ast.Name) and from_dt.get(a.func.id) == 'datetime' and len(a.args) + len(a.keywords) == 3):
+        return []
+    parts = [resolve(x) for x in a.args] + [resolve(k.value) for k in a.keywords]
+    if not all(isinstance(x, ast.Constant) and type(x.value) is int for x in parts):
+        return []
+    vals = dict(zip(['year', 'month', 'day'], [x.value for x in parts[:len(a.args)]]))
+    for k, x in zip(a.keywords, parts[len(a.args):]):
+        if k.arg not in ('year', 'month', 'day') or k.arg in vals:
+            return []
+        vals[k.arg] = x.value
+    return [vals['year'], vals['month'], vals['day']]
+
+
 def gen_convert(repo):
     rel = 'pedantic/decorators/fn_deco_validate/convert_value.py'
     tree = ast.parse(src(repo, rel))
@@ -465,6 +656,17 @@ def gen_validators(repo):
     names = [name_of(x) for x in tt.elts] if isinstance(tt, ast.Tuple) else [name_of(tt)]
     out.append(f'/-- {VDIR}datetime_unix_timestamp.py: `if not isinstance(value, (<these>)): reject` -/\n'
                f'def dateTimeUnixTimestampTypes : List String := [{", ".join(lean_str(n) for n in names)}]\n\n')
+    ep = unix_epoch(ux, ast.parse(src(repo, VDIR + 'datetime_unix_timestamp.py')))
+    it = gen_import_time(repo)
+    if not ep and it.rstrip().endswith(':= []'):
+        # not a literal date and nothing computed at import time either (e.g. an inline call): outside the subset - the
+        # correspondence check (which runs the timestamps in several time zones) decides alone
+        raise Skip('DateTimeUnixTimestamp.validate: the seconds are not added to a literal date')
+    out.append(f'/-- the summand `datetime(<year>, <month>, <day>)` of `return <it> + timedelta(seconds=seconds)`: [year, month, day] of the\n'
+               f'    literal date (a name bound once, at module level, to such a literal is looked through); `[]` when the summand is a value\n'
+               f'    computed at import time (see `importTimeComputations`) -/\n'
+               f'def dateTimeUnixTimestampEpoch : List Int := [{", ".join(str(x) for x in ep)}]\n\n')
+    out.append(it)
     out.append(gen_convert(repo))
     out.append('\nend PedVerif.Gen.Validators\n')
     return ''.join(out)
